@@ -49,8 +49,8 @@ var sigma = [10][16]int{
 }
 
 func newAlg(name string, w uint, rounds int, rot [4]uint) *Alg {
-	a := &Alg{Name: name, W: w, Rounds: rounds, BB: int(w) * 16 / 8, Out: int(w), R: rot}
-	a.Out = int(w) / 8 * 8 // 8 words of w/8 bytes: 64 or 32
+	// block = 16 words, hash = 8 words of w/8 bytes each
+	a := &Alg{Name: name, W: w, Rounds: rounds, BB: 16 * int(w) / 8, Out: 8 * int(w) / 8, R: rot}
 	if w == 64 {
 		a.mask = ^uint64(0)
 	} else {
@@ -343,6 +343,9 @@ func SelfTest() error {
 	}
 	if got := hx(B.NewX(0, true, key, in).Range(0, 64)); got != "3dbba8516da76bf7330055c66ea36cf1005e92714262b24d9710f51d9e126406e1bcd6497059f9331f1091c3634b695428d475ed432f987040575520a1c29f5e" {
 		return fmt.Errorf("BLAKE2Xb unknown-length = %s", got)
+	}
+	if got := hx(S.NewX(0, true, key[:32], in).Range(0, 64)); got != "2a9a6977d915a2c4dd07dbcafe1918bf1682e56d9c8e567ecd19bfd7cd93528833c764d12b34a5e2a219c9fd463dab45e972c5574d73f45de5b2e23af72530d8" {
+		return fmt.Errorf("BLAKE2Xs unknown-length = %s", got)
 	}
 	return nil
 }
